@@ -851,10 +851,14 @@ def c12(obs, act, viols, probes):
                           timeout_s=T, ended=None if te is None else round(te - t0, 4)))
         else:
           # the executor proceeds by deadline + join interval
+          # (the first sign that the executor has *moved on*: the next node's run_if / body, a test
+          # diagnoser, the final teardown, plug tearDown or a callback - not the bookkeeping of the
+          # timed-out phase itself, which happens before the executor is free to go on)
           nxt = None
           for e in log:
-            if e[0] > starts[k][0] and e[2] != starts[k][2] and e[3] in (
-                'body_start', 'plug_td_start', 'callback', 'enter', 'test_diag', 'diag', 'run_if'):
+            if e[0] > starts[k][0] and e[2] != starts[k][2] and (
+                e[3] in ('body_start', 'plug_td_start', 'callback', 'test_diag', 'run_if') or
+                (e[3] == 'enter' and e[4] in ('_execute_test_teardown', 'tear_down_plugs', '_finalize'))):
               nxt = e
               break
           if nxt is not None and nxt[1] > t0 + T + 3.0 + 1e-6 and not spec.get('slow_log_s'):
